@@ -953,19 +953,22 @@ def rule_F(ck, T):
                     kind = 'local'
                 ct[f.cls.split('::')[-1]] = (kind, f.where())
     rt = {}
+    # every instantiation call_constructor<amgcl::relaxation::X, Matrix> made inside the wrapper class (directly in the constructor or through
+    # member helpers): the Matrix argument type says which operand the serial relaxation is built from
     for f in u.funcs:
-        if f.cls == 'amgcl::runtime::mpi::relaxation::wrapper' and f.j.get('ctor') and f.body is not None:
+        if f.cls == 'amgcl::runtime::mpi::relaxation::wrapper' and f.body is not None:
             for n in f.nodes.values():
                 if n['k'] == 'call' and 'call_constructor' in (n.get('f') or '') and n.get('a'):
                     g = u.by_id.get(n.get('fd'))
                     m = re.search(r'call_constructor<amgcl::relaxation::(\w+), (.*)>', g.full if g is not None else '')
                     if not m:
                         continue
+                    kind = 'distributed' if 'distributed_matrix' in m.group(2) else 'local'
                     a0 = unwrap(n['a'][0])
-                    kind = 'distributed' if (a0 is not None and a0['k'] == 'ref' and a0['d'] == f.params[0]) else ('local' if a0 is not None and 'local()' in show(a0) else None)
-                    if ('distributed_matrix' in m.group(2)) != (kind == 'distributed'):
-                        kind = None
-                    rt[m.group(1)] = (kind, f.where(n))
+                    if kind == 'local' and not (a0 is not None and 'local()' in show(a0)):
+                        kind = None          # a local matrix that is not the local block of the distributed matrix
+                    prev = rt.get(m.group(1))
+                    rt[m.group(1)] = (kind if prev is None or prev[0] == kind else None, f.where(n))
     for name, (k_rt, where) in sorted(rt.items()):
         if name not in ct:
             ck.ob('F.mpi-relaxation-operand', 'runtime::mpi::relaxation::wrapper|' + name, where, False, 'no compile-time class amgcl::mpi::relaxation::%s instantiated to compare with' % name)
